@@ -572,3 +572,53 @@ func FromFunc(a *Alphabet, nStates, start int, acc func(q int) bool, step func(q
 	}
 	return d
 }
+
+// Graph is an automaton under construction whose edges are ε-moves or whole languages
+// (embedded automata). It is used to describe all strings that can be written along the
+// paths of a control-flow graph.
+type Graph struct {
+	n *cnfa
+}
+
+func NewGraph(a *Alphabet) *Graph {
+	return &Graph{n: &cnfa{a: a}}
+}
+
+func (g *Graph) NewState() int {
+	g.n.tr = append(g.n.tr, map[int][]int{})
+	g.n.eps = append(g.n.eps, nil)
+	g.n.acc = append(g.n.acc, false)
+	return len(g.n.tr) - 1
+}
+
+// Eps adds an ε-move.
+func (g *Graph) Eps(from, to int) { g.n.eps[from] = append(g.n.eps[from], to) }
+
+// Embed adds, from state `from` to state `to`, exactly the strings of L(d).
+func (g *Graph) Embed(from, to int, d *DFA) {
+	off := len(g.n.tr)
+	for q := 0; q < d.N(); q++ {
+		m := map[int][]int{}
+		for c, t := range d.Trans[q] {
+			m[c] = []int{int(t) + off}
+		}
+		g.n.tr = append(g.n.tr, m)
+		g.n.eps = append(g.n.eps, nil)
+		g.n.acc = append(g.n.acc, false)
+	}
+	g.n.eps[from] = append(g.n.eps[from], d.Start+off)
+	for q := 0; q < d.N(); q++ {
+		if d.Acc[q] {
+			g.n.eps[q+off] = append(g.n.eps[q+off], to)
+		}
+	}
+}
+
+// DFA determinises the graph with the given start and accepting states.
+func (g *Graph) DFA(start int, accept []int) *DFA {
+	n := &cnfa{a: g.n.a, tr: g.n.tr, eps: g.n.eps, start: []int{start}, acc: make([]bool, len(g.n.tr))}
+	for _, q := range accept {
+		n.acc[q] = true
+	}
+	return n.determinize().Minimize()
+}
